@@ -107,13 +107,13 @@ class ExprMixin:
                 if isinstance(v, PySeq):
                     items.extend(v.items)
                 else:
-                    # symbolic splice: build by concatenation
-                    if symbolic is None:
-                        symbolic = as_v(PySeq(items, "tuple"))
-                    else:
-                        symbolic = L.seq_concat(symbolic, as_v(PySeq(items, "tuple")))
+                    # symbolic splice: build by concatenation (no empty pieces)
+                    if items:
+                        piece = as_v(PySeq(items, "tuple"))
+                        symbolic = piece if symbolic is None else L.seq_concat(symbolic, piece)
                     items = []
-                    symbolic = L.seq_concat(symbolic, self.seq_of(v).term)
+                    piece = self.seq_of(v).term
+                    symbolic = piece if symbolic is None else L.seq_concat(symbolic, piece)
             else:
                 items.append(self.eval(e))
         if symbolic is not None:
